@@ -347,71 +347,210 @@ Proof.
   intros H; inversion H; subst. apply (read_full_loop_pending _ _ _ _ _ _ _ L).
 Qed.
 
-(* ================= tcp+sni ================= *)
-(* every byte the client sent is either written to the upstream before the copy starts
-   ([data]), still in the connection ([s_src]) or stuck in the bufio.Reader ([s_lost]) *)
-Theorem sni_conservation : forall line segs st,
-  sni_setup line segs = Ok (Some st) ->
-  exists data, s_pre st = line ++ data /\ data ++ s_lost st ++ concat (s_src st) = concat segs.
+(* ================= reading on through the bufio.Reader ================= *)
+Lemma src_read_eof_src m src d s' : src_read m src = (d, s', true) -> s' = [].
 Proof.
-  intros line segs st. unfold sni_setup.
+  revert d s'; induction src as [|seg rest IH]; intros d s' H.
+  - cbn [src_read] in H. inversion H; reflexivity.
+  - destruct seg as [|x seg]; cbn [src_read] in H; [eauto | inversion H].
+Qed.
+
+Lemma src_read_measure m src d s' :
+  src_read m src = (d, s', false) -> (length d + src_measure s' <= src_measure src)%nat.
+Proof.
+  revert d s'; induction src as [|seg rest IH]; intros d s' H.
+  - cbn [src_read] in H. inversion H.
+  - destruct seg as [|x seg]; cbn [src_read] in H.
+    + specialize (IH _ _ H). unfold src_measure in *. cbn [concat app length]. lia.
+    + inversion H; subst. unfold src_measure. cbn [concat length].
+      rewrite !app_length, skipn_length, firstn_length. cbn [length]. lia.
+Qed.
+
+(* a pending EOF means the connection is exhausted *)
+Definition wf (b : breader) : Prop := b_err b <> 0%N -> concat (b_src b) = [].
+
+Ltac wf0 := let X := fresh in unfold wf; cbn; intros X; exfalso; apply X; reflexivity.
+
+Lemma fill_wf b : wf (fill b).
+Proof.
+  unfold fill. destruct (src_read (b_cap b - buffered b) (b_src b)) as [[d s'] e] eqn:E.
+  destruct e; [|wf0]. apply src_read_eof_src in E. subst. unfold wf. cbn. reflexivity.
+Qed.
+
+Lemma peek_loop_wf fuel : forall b n b1, wf b -> peek_loop fuel b n = Some b1 -> wf b1.
+Proof.
+  induction fuel as [|f IH]; intros b n b1 W H; cbn [peek_loop] in H.
+  - destruct ((buffered b <? n)%nat && (buffered b <? b_cap b)%nat && (b_err b =? 0)%N); [discriminate|].
+    inversion H; subst; exact W.
+  - destruct ((buffered b <? n)%nat && (buffered b <? b_cap b)%nat && (b_err b =? 0)%N).
+    + eapply IH; [apply fill_wf | exact H].
+    + inversion H; subst; exact W.
+Qed.
+
+Lemma peek_wf b n d e b1 : wf b -> peek b n = Ok (d, e, b1) -> wf b1.
+Proof.
+  intros W. unfold peek. destruct (peek_loop (S (b_cap b)) b n) as [b2|] eqn:L; [|discriminate].
+  pose proof (peek_loop_wf _ _ _ _ W L) as W2.
+  destruct (b_cap b2 <? n)%nat; [intros H; inversion H; subst; exact W2|].
+  destruct (buffered b2 <? n)%nat; intros H; inversion H; subst; [wf0 | exact W2].
+Qed.
+
+Lemma bread_wf b n d e b1 : wf b -> bread b n = (d, e, b1) -> wf b1.
+Proof.
+  intros W. unfold bread. destruct n as [|n'].
+  - destruct (0 <? buffered b)%nat; intros H; inversion H; subst; [exact W | wf0].
+  - destruct (b_buf b) as [|x buf] eqn:B.
+    + destruct (negb (b_err b =? 0)%N); [intros H; inversion H; subst; wf0|].
+      destruct (b_cap b <=? S n')%nat.
+      * destruct (src_read (S n') (b_src b)) as [[d0 s'] e0]. intros H; inversion H; subst. wf0.
+      * destruct (src_read (b_cap b) (b_src b)) as [[d0 s'] e0] eqn:E.
+        destruct d0 as [|y d0]; intros H; inversion H; subst; [wf0|].
+        destruct e0; [|wf0]. apply src_read_eof_src in E. subst. unfold wf. cbn. reflexivity.
+    + intros H; inversion H; subst. exact W.
+Qed.
+
+Lemma read_full_loop_wf fuel : forall b need acc d e b1,
+  wf b -> read_full_loop fuel b need acc = Some (d, e, b1) -> wf b1.
+Proof.
+  induction fuel as [|f IH]; intros b need acc d e b1 W H.
+  - destruct need; cbn [read_full_loop] in H; [inversion H; subst; exact W | discriminate].
+  - destruct need as [|need']; cbn [read_full_loop] in H; [inversion H; subst; exact W|].
+    destruct (bread b (S need')) as [[d0 e0] b0] eqn:R.
+    pose proof (bread_wf _ _ _ _ _ W R) as W0.
+    destruct (e0 =? 0)%N; [eapply IH; eassumption|].
+    destruct (S need' <=? length d0)%nat; inversion H; subst; exact W0.
+Qed.
+
+Lemma read_full_wf b n d e b1 : wf b -> read_full b n = Ok (d, e, b1) -> wf b1.
+Proof.
+  intros W. unfold read_full. destruct (read_full_loop (S n) b n []) as [[[d0 e0] b0]|] eqn:L; [|discriminate].
+  intros H; inversion H; subst. eapply read_full_loop_wf; eassumption.
+Qed.
+
+(* one Read with a non-empty buffer argument: either an error with nothing pending, or
+   progress *)
+Lemma bread_step b m d e b1 : (0 < m)%nat -> wf b -> bread b m = (d, e, b1) ->
+  (e <> 0%N /\ d = [] /\ pending b = []) \/
+  (e = 0%N /\ wf b1 /\ (reader_measure b1 < reader_measure b)%nat).
+Proof.
+  intros Hm W. unfold bread. destruct m as [|n']; [lia|].
+  destruct (b_buf b) as [|x buf] eqn:B.
+  - destruct (b_err b =? 0)%N eqn:Eerr; cbn [negb].
+    + destruct (b_cap b <=? S n')%nat eqn:Ecap.
+      * destruct (src_read (S n') (b_src b)) as [[d0 s'] e0] eqn:E.
+        intros H; inversion H; subst. destruct e0.
+        -- left. apply src_read_eof in E. destruct E as [-> Hc].
+           split; [discriminate|]. split; [reflexivity|]. unfold pending. now rewrite B, Hc.
+        -- right. destruct (src_read_progress _ _ _ _ Hm E) as [_ Hlt].
+           split; [reflexivity|]. split; [wf0|].
+           unfold reader_measure. cbn [b_buf b_src]. rewrite B. cbn [length]. lia.
+      * apply Nat.leb_gt in Ecap.
+        destruct (src_read (b_cap b) (b_src b)) as [[d0 s'] e0] eqn:E.
+        destruct d0 as [|y d0].
+        -- intros H; inversion H; subst. destruct e0.
+           ++ left. apply src_read_eof in E. destruct E as [_ Hc].
+              split; [discriminate|]. split; [reflexivity|]. unfold pending. now rewrite B, Hc.
+           ++ exfalso. assert (Hc : (0 < b_cap b)%nat) by lia.
+              destruct (src_read_progress _ _ _ _ Hc E) as [Hd _]. now apply Hd.
+        -- intros H; inversion H; subst. right. split; [reflexivity|].
+           destruct e0.
+           ++ apply src_read_eof in E. destruct E as [E _]. discriminate E.
+           ++ split; [wf0|]. pose proof (src_read_measure _ _ _ _ E) as Hle.
+              unfold reader_measure. cbn [b_buf b_src]. rewrite B. rewrite skipn_length.
+              cbn [length] in *. lia.
+    + apply N.eqb_neq in Eerr. intros H; inversion H; subst. left.
+      split; [exact Eerr|]. split; [reflexivity|]. unfold pending. rewrite B. cbn [app]. exact (W Eerr).
+  - intros H; inversion H; subst. right. split; [reflexivity|]. split; [exact W|].
+    unfold reader_measure. cbn [set_buf b_buf b_src]. rewrite B, skipn_length. cbn [length]. lia.
+Qed.
+
+(* copying through the reader delivers exactly what is pending: the buffered bytes first,
+   then the rest of the connection, for every segmentation *)
+Lemma copy_reader_loop_preserves m : (0 < m)%nat -> forall fuel b,
+  wf b -> (reader_measure b < fuel)%nat -> copy_reader_loop fuel m b = Some (pending b).
+Proof.
+  intros Hm. induction fuel as [|f IH]; intros b W Hf; [lia|].
+  cbn [copy_reader_loop]. destruct (bread b m) as [[d e] b1] eqn:R.
+  pose proof (bread_pending _ _ _ _ _ R) as P.
+  destruct (bread_step _ _ _ _ _ Hm W R) as [[He [Hd Hp]] | [He [W1 Hlt]]].
+  - destruct (e =? 0)%N eqn:E0; [apply N.eqb_eq in E0; contradiction|]. cbn [negb]. now rewrite Hd, Hp.
+  - subst e. cbn [N.eqb negb]. rewrite IH by (assumption || lia). now rewrite P.
+Qed.
+
+Theorem copy_from_reader_preserves : forall b, wf b -> copy_from_reader b = Ok (pending b).
+Proof.
+  intros b W. unfold copy_from_reader.
+  rewrite (copy_reader_loop_preserves _ copy_buf_pos) by (assumption || lia). reflexivity.
+Qed.
+
+(* ================= tcp+sni ================= *)
+(* after the handshake: the bytes handed out so far plus what the reader still holds (buffer
+   and connection) are the client's stream *)
+Lemma sni_handshake_inv : forall line segs pre b,
+  sni_handshake line segs = Ok (Some (pre, b)) ->
+  wf b /\ exists data, pre = line ++ data /\ data ++ pending b = concat segs.
+Proof.
+  intros line segs pre b. unfold sni_handshake.
+  assert (W0 : wf (new_reader 4096 segs)) by wf0.
   destruct (peek (new_reader 4096 segs) 9) as [[[hdr e1] b1]|k1|] eqn:P; cbn [bind]; try discriminate.
-  destruct (peek_pending _ _ _ _ _ P) as [P1 _].
+  destruct (peek_pending _ _ _ _ _ P) as [P1 _]. pose proof (peek_wf _ _ _ _ _ W0 P) as W1.
   destruct (negb (e1 =? 0)%N); [discriminate|].
   destruct (client_hello_buffer_size hdr) as [size|k2|]; try discriminate.
   destruct (read_full b1 (N.to_nat size)) as [[[data e2] b2]|k3|] eqn:R; cbn [bind]; try discriminate.
-  pose proof (read_full_pending _ _ _ _ _ R) as P2.
+  pose proof (read_full_pending _ _ _ _ _ R) as P2. pose proof (read_full_wf _ _ _ _ _ W1 R) as W2.
   destruct (negb (e2 =? 0)%N); [discriminate|].
   destruct (read_server_name (skipn 5 data)) as [[|c name]|k4|]; try discriminate.
-  intros H; inversion H; subst. cbn [s_pre s_lost s_src].
-  exists data. split; [reflexivity|].
-  unfold pending in *. rewrite P2, P1. reflexivity.
+  intros H; inversion H; subst. split; [exact W2|].
+  exists data. split; [reflexivity|]. rewrite P2, P1. reflexivity.
 Qed.
 
-(* hence the upstream receives the PROXY line and the client's stream with exactly the
-   stuck bytes cut out ... *)
-Theorem sni_upstream_stream : forall (pp : bool) (line : str) segs st,
-  sni_setup (if pp then line else []) segs = Ok (Some st) ->
-  exists data, data ++ s_lost st ++ concat (s_src st) = concat segs /\
-    upstream_stream KSni pp line segs = Ok (Some ((if pp then line else []) ++ data ++ concat (s_src st))).
+(* tcp+sni (since c17abb6): for every segmentation the upstream receives
+   [PROXY line] ++ the client's stream from its first byte, like tcp *)
+Theorem sni_upstream_stream : forall (pp : bool) (line : str) segs up,
+  upstream_stream KSni pp line segs = Ok (Some up) ->
+  up = spec_upstream KSni pp line (concat segs).
 Proof.
-  intros pp line segs st H. destruct (sni_conservation _ _ _ H) as [data [Hp Hc]].
-  exists data. split; [exact Hc|].
-  unfold upstream_stream, tunnel_setup. rewrite H. cbn [bind].
-  rewrite copy_preserves_stream. cbn [bind]. rewrite Hp. now rewrite app_assoc.
-Qed.
-
-(* ... which is the whole stream, for every segmentation, whenever nothing is stuck *)
-Theorem sni_upstream_stream_on_domain : forall (pp : bool) (line : str) segs,
-  region_sni_leftover KSni (if pp then line else []) segs = false ->
-  forall st, sni_setup (if pp then line else []) segs = Ok (Some st) ->
-  upstream_stream KSni pp line segs = Ok (Some (spec_upstream KSni pp line (concat segs))).
-Proof.
-  intros pp line segs Hr st H. unfold region_sni_leftover in Hr. rewrite H in Hr.
-  apply negb_false_iff, beq_eq in Hr.
-  destruct (sni_upstream_stream _ _ _ _ H) as [data [Hc ->]].
-  rewrite Hr in Hc. cbn [app] in Hc. cbn [spec_upstream]. now rewrite Hc.
+  intros pp line segs up. unfold upstream_stream.
+  destruct (sni_handshake (if pp then line else []) segs) as [[[pre b]|]|k|] eqn:H; cbn [bind]; try discriminate.
+  destruct (sni_handshake_inv _ _ _ _ H) as [W [data [-> Hc]]].
+  rewrite (copy_from_reader_preserves _ W). cbn [bind]. intros E; inversion E; subst.
+  cbn [spec_upstream]. rewrite <- Hc. now rewrite app_assoc.
 Qed.
 
 Definition wit_hello : str := enc_record 3 1 ex_hello.
 
-Example sni_on_domain_nonvacuous :
-  region_sni_leftover KSni [] [firstn 20 wit_hello; skipn 20 wit_hello; [1; 2; 3]%N] = false /\
-  upstream_stream KSni false [] [firstn 20 wit_hello; skipn 20 wit_hello; [1; 2; 3]%N]
+Example sni_upstream_nonvacuous :
+  upstream_stream KSni false [] [wit_hello ++ [1; 2; 3]%N; [9%N]] = Ok (Some (wit_hello ++ [1; 2; 3; 9]%N)) /\
+  upstream_stream KSni false [] [firstn 20 wit_hello; skipn 20 wit_hello ++ [1%N]; [2; 3]%N]
     = Ok (Some (wit_hello ++ [1; 2; 3]%N)).
 Proof. split; vm_compute; reflexivity. Qed.
 
-(* a first segment that carries the ClientHello plus 3 more bytes: they never arrive,
-   although bytes sent later do *)
+(* the unrepaired copier (before c17abb6) read the raw connection: the upstream received the
+   stream with exactly the bytes stuck in the reader cut out *)
+Theorem sni_unrepaired_stream : forall (pp : bool) (line : str) segs up,
+  upstream_stream_sni_unrepaired pp line segs = Ok (Some up) ->
+  exists data rest, up = (if pp then line else []) ++ data ++ rest /\
+    data ++ sni_leftover_unrepaired (if pp then line else []) segs ++ rest = concat segs.
+Proof.
+  intros pp line segs up. unfold upstream_stream_sni_unrepaired, sni_leftover_unrepaired.
+  destruct (sni_handshake (if pp then line else []) segs) as [[[pre b]|]|k|] eqn:H; cbn [bind]; try discriminate.
+  destruct (sni_handshake_inv _ _ _ _ H) as [_ [data [-> Hc]]].
+  rewrite copy_preserves_stream. cbn [bind]. intros E; inversion E; subst.
+  exists data, (concat (b_src b)). split; [now rewrite app_assoc | exact Hc].
+Qed.
+
+(* F-C09-1 as it was before the fix commit c17abb6: a first segment that carries the
+   ClientHello plus 3 more bytes; they never arrived, although bytes sent later did *)
 Theorem sni_leftover_refuted :
-  exists segs, region_sni_leftover KSni [] segs = true /\
-    upstream_stream KSni false [] segs = Ok (Some (wit_hello ++ [9%N])) /\
+  exists segs, sni_leftover_unrepaired [] segs = [1; 2; 3]%N /\
+    upstream_stream_sni_unrepaired false [] segs = Ok (Some (wit_hello ++ [9%N])) /\
     concat segs = wit_hello ++ [1; 2; 3; 9]%N /\
-    upstream_stream KSni false [] segs <> Ok (Some (spec_upstream KSni false [] (concat segs))).
+    upstream_stream_sni_unrepaired false [] segs <> Ok (Some (spec_upstream KSni false [] (concat segs))) /\
+    upstream_stream KSni false [] segs = Ok (Some (spec_upstream KSni false [] (concat segs))).
 Proof.
   exists [wit_hello ++ [1; 2; 3]%N; [9%N]].
   split; [vm_compute; reflexivity|]. split; [vm_compute; reflexivity|].
-  split; [vm_compute; reflexivity|]. vm_compute. discriminate.
+  split; [vm_compute; reflexivity|]. split; [vm_compute; discriminate | vm_compute; reflexivity].
 Qed.
 
 (* ================= websocket relay ================= *)
